@@ -39,6 +39,10 @@ static void descRoundTrip(Env& env, const std::string& stage, int maxRules) {
       AutDescription e1 = par.ParseString(v1); if (!(e1 == d)) c.viol("ParseString(variant with () and blank runs)", "final_states_or_rules_differ", {}, "d: " + descStr(d) + "\nparsed: " + descStr(e1) + "\ntext:\n" + v1, pick.size());
       std::string v2 = "Final States"; for (auto& f : d.finalStates) v2 += " " + f + ":0"; v2 += "\nAutomaton y\nTransitions\n"; for (auto& t : d.transitions) { v2 += t.second; if (!t.first.empty()) { v2 += "("; for (size_t i = 0; i < t.first.size(); i++) v2 += (i ? "," : "") + t.first[i]; v2 += ")"; } v2 += "->" + t.third + "\n"; }
       AutDescription e2 = par.ParseString(v2); if (!(e2 == d)) c.viol("ParseString(variant without blanks, sections reordered)", "final_states_or_rules_differ", {}, "d: " + descStr(d) + "\nparsed: " + descStr(e2) + "\ntext:\n" + v2, pick.size());
+      // nullary rules whose parentheses hold only blanks ("a( ) -> q", "a(\t) -> q"); blanks between the symbol and its parenthesis
+      if (hasNullary || !pick.empty()) { std::string v3 = "Ops\nAutomaton z\nStates\nFinal States"; for (auto& f : d.finalStates) v3 += "\t" + f; v3 += "\nTransitions\n"; int k = 0;
+        for (auto& t : d.transitions) { static const char* IN[3] = {" ", "\t", " \t  "}; v3 += t.second + (k % 2 ? " " : "") + "("; if (t.first.empty()) v3 += IN[k % 3]; for (size_t i = 0; i < t.first.size(); i++) v3 += std::string(i ? "," : "") + IN[(k + i) % 3] + t.first[i]; v3 += ") -> " + t.third + "\n"; k++; }
+        AutDescription e3 = par.ParseString(v3); if (!(e3 == d)) c.viol("ParseString(variant with blanks inside parentheses)", "final_states_or_rules_differ", {}, "d: " + descStr(d) + "\nparsed: " + descStr(e3) + "\ntext:\n" + v3, pick.size()); }
     } catch (std::exception& ex) { c.viol("ParseString(Serialize(d))", "exception_on_well_formed_text", {}, "d: " + descStr(d) + " " + ex.what(), pick.size()); }
   };
   env.parallel(o);
@@ -136,6 +140,35 @@ static void byteEdits(Env& env, const std::string& stage) {
     if (tryAll(t, where)) c.viol(where, "non_standard_exception_on_arbitrary_text", {}, "text: \"" + vis(t) + "\""); };
   env.parallel(o);
 }
+// ---- (d) blank placement: one rule line cut into atoms; EVERY assignment of a filler (nothing, blank, tab, a run of all non-newline isspace characters) to EVERY gap between
+// atoms, before the first and after the last one; the header with each non-empty filler between its words.  The description parsed must be the same for every placement, and
+// so must what the four loaders dump.
+static const char* GAPRULES[6] = {"a|->|q", "a|(|)|->|q", "f|(|q|)|->|p", "g|(|q|,|p|)|->|q", "h|(|q|,|p|,|q|)|->|p", "a|(|)|->|q\nb|->|q"};
+static const char* FILL[4] = {"", " ", "\t", " \v\f\r\t "};
+static void gapFill(Env& env, const std::string& stage) {
+  struct G { std::vector<std::string> atoms; uint64_t n; AutDescription want; }; auto GS = std::make_shared<std::vector<G>>(); std::vector<uint64_t> off; uint64_t total = 0;
+  for (auto r : GAPRULES) { G g; std::string cur; for (const char* p = r;; p++) { if (*p == '|' || *p == '\n' || !*p) { g.atoms.push_back(cur); cur.clear(); if (*p == '\n') g.atoms.push_back("\n"); if (!*p) break; } else cur += *p; }
+    size_t gaps = g.atoms.size() + 1; g.n = 1; for (size_t i = 0; i < gaps; i++) g.n *= 4;
+    { std::vector<std::string> ch; std::string sym, par; int ph = 0; auto flush = [&] { if (!sym.empty()) { g.want.transitions.insert(AutDescription::Transition(ch, sym, par)); } ch.clear(); sym.clear(); par.clear(); ph = 0; };
+      for (auto& a : g.atoms) { if (a == "\n") { flush(); continue; } if (a == "(" || a == ")" || a == ",") continue; if (a == "->") { ph = 2; continue; } if (ph == 0) { sym = a; ph = 1; } else if (ph == 1) ch.push_back(a); else par = a; } flush(); g.want.finalStates.insert("q"); }
+    off.push_back(total); total += g.n * 3; GS->push_back(g); }
+  auto OFF = std::make_shared<std::vector<uint64_t>>(off);
+  auto make = [GS, OFF](uint64_t idx, size_t& gi) { gi = 0; while (gi + 1 < OFF->size() && idx >= (*OFF)[gi + 1]) gi++; uint64_t x = idx - (*OFF)[gi]; const G& g = (*GS)[gi]; std::string h = FILL[1 + x % 3]; x /= 3;
+    std::string t = h + "Ops" + h + "\n" + "Automaton" + h + "A" + h + "\nStates" + h + "\n" + h + "Final" + h + "States" + h + "q" + h + "\nTransitions" + h + "\n";
+    for (size_t i = 0; i <= g.atoms.size(); i++) { bool nl = (i < g.atoms.size() && g.atoms[i] == "\n"); t += FILL[x % 4]; x /= 4; if (i < g.atoms.size()) t += g.atoms[i]; (void)nl; } return t + "\n"; };
+  ParallelOpts o; o.stage = stage; o.size = total; o.block = 1024; o.caseTimeout = 5;
+  o.describe = [make](uint64_t idx) { size_t gi; return "text: \"" + vis(make(idx, gi)) + "\""; };
+  o.run = [make, GS](uint64_t idx, Ctx& c) { size_t gi; std::string t = make(idx, gi); const G& g = (*GS)[gi]; c.evals(); c.nontrivial(); if (c.wantSample() && idx % 5003 == 9) c.sample("\"" + vis(t) + "\"");
+    VATA::Parsing::TimbukParser par; VATA::Serialization::TimbukSerializer ser;
+    try { AutDescription e = par.ParseString(t); if (!(e == g.want)) { c.viol("ParseString(blank placement)", "final_states_or_rules_differ", {}, "text: \"" + vis(t) + "\"\nwanted: " + descStr(g.want) + "\nparsed: " + descStr(e)); return; }
+      if (idx % 16 == 0) {   // the loaders see the parsed description only: every 16th placement is enough to tie them in (the placements differ in the text alone)
+        { ExplicitTreeAut a; AutBase::StateDict sd; a.LoadFromString(par, t, sd); AutDescription d1 = par.ParseString(a.DumpToString(ser, sd)); if (!(d1 == g.want)) c.viol("expl/dump(load(blank placement))", "final_states_or_rules_differ", {}, "text: \"" + vis(t) + "\"\ndump: " + descStr(d1)); }
+        { BDDBottomUpTreeAut a; AutBase::StateDict sd; a.LoadFromString(par, t, sd); AutDescription d1 = par.ParseString(a.DumpToString(ser, sd)); if (!(d1 == g.want)) c.viol("bdd-bu/dump(load(blank placement))", "final_states_or_rules_differ", {}, "text: \"" + vis(t) + "\"\ndump: " + descStr(d1)); }
+        { BDDTopDownTreeAut a; AutBase::StateDict sd; a.LoadFromString(par, t, sd); AutDescription d1 = par.ParseString(a.DumpToString(ser, sd)); if (!(d1 == g.want)) c.viol("bdd-td/dump(load(blank placement))", "final_states_or_rules_differ", {}, "text: \"" + vis(t) + "\"\ndump: " + descStr(d1)); } }
+    } catch (std::exception& ex) { c.viol("ParseString(blank placement)", "exception_on_well_formed_text", {}, "text: \"" + vis(t) + "\" " + ex.what()); } };
+  env.parallel(o);
+}
+static Register g1("c13.gaps", "C13", "6 rule lines x every assignment of 4 fillers (none, blank, tab, run of all non-newline isspace characters) to every gap between atoms x 3 header fillers: same description parsed, same dump from the tree loaders", [](Env& e) { gapFill(e, "c13.gaps"); });
 static Register d1("c13.bytes.len2", "C13", "ALL byte strings of length 2 (65 536): parser + explicit loader", [](Env& e) { byteStrings(e, "c13.bytes.len2", 2); });
 static Register d2("c13.bytes.len3", "C13", "ALL byte strings of length 3 (16.7 M): parser + explicit loader", [](Env& e) { byteStrings(e, "c13.bytes.len3", 3); });
 static Register d3("c13.byteedit1", "C13", "every single-byte edit (replace by / insert each of 256 values, delete) of 3 valid templates: parser + four loaders", [](Env& e) { byteEdits(e, "c13.byteedit1"); });
